@@ -1,6 +1,6 @@
 //! unit: recv -- the receiving half of a stream: flow-control and final-size enforcement, stop/reset tables
 //! props: C06 C11 C01 C03
-//! trusted: Assembler::{insert,clear,reinit,bytes_read,new} are an opaque contract boundary (real Assembler only has a bounded stand-in)
+//! cross-unit: shims::Assembler::{new,reinit,clear,bytes_read,ensure_ordering,read,insert} are proved on the real Assembler in unit assembler (insert's allocation-estimate bound is not carried over; the insert log is ghost bookkeeping of this unit)
 #![allow(unused_imports, dead_code, non_camel_case_types, non_snake_case, unused_variables, unused_mut, unused_assignments)]
 use vstd::prelude::*;
 use std::mem;
@@ -39,9 +39,14 @@ impl StreamsState {
     #[verifier::external_body] pub fn stream_recv_freed(&mut self, id: StreamId, recv: super::code::StreamRecv)
         ensures final(self).freed_count() == old(self).freed_count() + 1 { unimplemented!() }
 }
-/// opaque contract boundary (the real Assembler only has bounded stand-ins and one Kani obligation)
+/// contract boundary: every clause below is proved on the real Assembler in unit `assembler` (there `wf_spec` is Assembler::wf,
+/// `ordered_spec` is `state is Ordered`, `empty_spec` is an empty heap); the one thing not carried over is insert's
+/// machine-arithmetic precondition (allocation estimates fit usize)
 #[verifier::external_body] pub struct Assembler { x: u8 }
+pub struct IllegalOrderedRead;
 impl Assembler {
+    pub uninterp spec fn wf_spec(&self) -> bool;
+    pub uninterp spec fn ordered_spec(&self) -> bool;
     pub uninterp spec fn bytes_read_spec(&self) -> u64;
     /// highest stream offset ever inserted (Assembler::end)
     pub uninterp spec fn end_spec(&self) -> u64;
@@ -49,21 +54,34 @@ impl Assembler {
     pub uninterp spec fn empty_spec(&self) -> bool;
     /// ghost history of everything handed to the assembler: (offset, bytes) per insert
     pub uninterp spec fn log(&self) -> Seq<(u64, Seq<u8>)>;
-    #[verifier::external_body] pub fn new() -> (r: Self) ensures r.bytes_read_spec() == 0, r.end_spec() == 0, r.empty_spec() { unimplemented!() }
-    #[verifier::external_body] pub fn reinit(&mut self) ensures final(self).bytes_read_spec() == 0, final(self).end_spec() == 0, final(self).empty_spec() { unimplemented!() }
-    #[verifier::external_body] pub fn clear(&mut self) ensures final(self).bytes_read_spec() == old(self).bytes_read_spec(), final(self).end_spec() == old(self).end_spec(), final(self).empty_spec() { unimplemented!() }
+    /// Assembler::wf implies bytes_read <= end <= 2^62
+    #[verifier::external_body] pub proof fn lemma_wf_bounds(&self)
+        ensures self.wf_spec() ==> self.bytes_read_spec() <= self.end_spec() && self.end_spec() <= 0x4000_0000_0000_0000 {}
+    #[verifier::external_body] pub fn new() -> (r: Self) ensures r.wf_spec(), r.ordered_spec(), r.bytes_read_spec() == 0, r.end_spec() == 0, r.empty_spec() { unimplemented!() }
+    #[verifier::external_body] pub fn reinit(&mut self) ensures final(self).wf_spec(), final(self).ordered_spec(), final(self).bytes_read_spec() == 0, final(self).end_spec() == 0, final(self).empty_spec() { unimplemented!() }
+    #[verifier::external_body] pub fn clear(&mut self)
+        requires old(self).wf_spec()
+        ensures final(self).wf_spec(), final(self).ordered_spec() == old(self).ordered_spec(), final(self).bytes_read_spec() == old(self).bytes_read_spec(),
+            final(self).end_spec() == old(self).end_spec(), final(self).empty_spec() { unimplemented!() }
     #[verifier::external_body] pub fn bytes_read(&self) -> (r: u64) ensures r == self.bytes_read_spec() { unimplemented!() }
+    #[verifier::external_body] pub fn ensure_ordering(&mut self, ordered: bool) -> (r: Result<(), IllegalOrderedRead>)
+        requires old(self).wf_spec()
+        ensures final(self).wf_spec(), final(self).bytes_read_spec() == old(self).bytes_read_spec(), final(self).end_spec() == old(self).end_spec(),
+            match r { Ok(_) => final(self).ordered_spec() == ordered, Err(_) => ordered && !old(self).ordered_spec() && final(self).ordered_spec() == old(self).ordered_spec() }
+    { unimplemented!() }
     /// a read hands out at most max_length bytes of data that was inserted (so never beyond `end`), advances bytes_read by exactly
-    /// what it hands out, and hands out nothing when nothing is buffered
+    /// what it hands out, in ordered mode hands out the chunk at the read index, and hands out nothing when nothing is buffered
     #[verifier::external_body] pub fn read(&mut self, max_length: usize, ordered: bool) -> (r: Option<super::code::Chunk>)
-        requires old(self).bytes_read_spec() <= old(self).end_spec()
-        ensures final(self).end_spec() == old(self).end_spec(), final(self).bytes_read_spec() <= final(self).end_spec(),
+        requires old(self).wf_spec(), ordered == old(self).ordered_spec()
+        ensures final(self).wf_spec(), final(self).ordered_spec() == old(self).ordered_spec(), final(self).end_spec() == old(self).end_spec(),
+            final(self).bytes_read_spec() <= final(self).end_spec(),
             old(self).empty_spec() ==> r.is_none() && final(self).empty_spec(),
-            match r { Some(c) => c.bytes@.len() <= max_length && final(self).bytes_read_spec() == old(self).bytes_read_spec() + c.bytes@.len(),
+            match r { Some(c) => c.bytes@.len() <= max_length && final(self).bytes_read_spec() == old(self).bytes_read_spec() + c.bytes@.len()
+                            && (ordered ==> c.offset == old(self).bytes_read_spec()) && c.offset + c.bytes@.len() <= old(self).end_spec(),
                       None => final(self).bytes_read_spec() == old(self).bytes_read_spec() } { unimplemented!() }
     #[verifier::external_body] pub fn insert(&mut self, offset: u64, bytes: Bytes, allocation_size: usize) -> (r: Result<(), TooManyChunks>)
-        requires offset + bytes@.len() <= u64::MAX
-        ensures final(self).bytes_read_spec() == old(self).bytes_read_spec(),
+        requires old(self).wf_spec(), offset + bytes@.len() <= 0x4000_0000_0000_0000, bytes@.len() <= allocation_size, bytes@.len() <= 0xffff_ffff
+        ensures final(self).wf_spec(), final(self).ordered_spec() == old(self).ordered_spec(), final(self).bytes_read_spec() == old(self).bytes_read_spec(),
             final(self).log() == old(self).log().push((offset, bytes@)),
             final(self).end_spec() == (if offset + bytes@.len() > old(self).end_spec() { (offset + bytes@.len()) as u64 } else { old(self).end_spec() }) { unimplemented!() }
 }
@@ -104,6 +122,7 @@ impl Recv {
     }
     /// representation invariant: bytes_read <= end <= advertised limit < 2^62, and a known final size is never below data already received
     pub open spec fn wf(&self) -> bool {
+        &&& self.assembler.wf_spec()
         &&& self.assembler.bytes_read_spec() <= self.assembler.end_spec()
         &&& self.assembler.end_spec() <= self.end
         &&& (self.state is ResetRecvd ==> self.assembler.empty_spec())
@@ -138,6 +157,8 @@ impl Recv {
             // StreamsState::received drops frames for a stream that is no longer receiving before it gets here
             old(self).state is Recv,
             frame.offset < 0x4000_0000_0000_0000, frame.data@.len() < 0x1_0000_0000,
+            // the frame's data is a slice of the packet payload (Assembler::insert debug-asserts the same)
+            frame.data@.len() <= payload_len,
             received <= max_data < 0x4000_0000_0000_0000,
         ensures
             final(self).wf(),
@@ -259,7 +280,8 @@ impl Chunk {
 }
 impl<'a> Chunks<'a> {
     pub open spec fn inv(&self) -> bool {
-        match self.state { ChunksState::Readable(rs) => rs.wf() && (rs.state is ResetRecvd ==> self.read == 0), _ => true }
+        // `ordered` is what Chunks::new (hash-map glue, not extracted) passed to Assembler::ensure_ordering before building the value
+        match self.state { ChunksState::Readable(rs) => rs.wf() && (rs.state is ResetRecvd ==> self.read == 0) && self.ordered == rs.assembler.ordered_spec(), _ => true }
     }
 //@ extract quinn-proto/src/connection/streams/recv.rs :: impl Chunks<'a>::fn next
 //@ props C11 C01
